@@ -79,6 +79,7 @@ class World:
             self.mute = {"buffers"}
         elif outcome == "invalid":
             self.mute = {"invalid"}
+        self.at_deadline = outcome == "deadline"
         if outcome == "stopped":
             self.ezsp.stop_ezsp()
         else:
@@ -86,6 +87,20 @@ class World:
         n0 = len(self.ncp.log)
         t0 = self.loop.time()
         task = self.loop.create_task(self.app._watchdog_feed())
+        if self.at_deadline:
+            # the NCP's answer to the keep-alive is read in the very loop iteration in which the command timeout expires
+            # (I/O callbacks run before timers): the feed may count as answered or as timed out, but nothing else
+            held = []
+            deliver0 = self.ncp.deliver
+            self.ncp.deliver = held.append
+            self.loop.settle()
+            self.ncp.deliver = deliver0
+            dl = self.loop.next_deadline()
+            if held and dl is not None:
+                self.loop._vtime = max(self.loop._vtime, dl)
+                for fr in held:
+                    self.loop.call_soon(self.ezsp.frame_received, fr)
+                self.loop.fire_timers()
         self.loop.run_until_idle(horizon=t0 + 60.0)
         if not task.done():
             self.viol.append(f"feed with outcome {outcome} never finished")
@@ -94,6 +109,11 @@ class World:
             return
         raised = task.exception() is not None
         exc = task.exception()
+        if self.at_deadline:
+            # either reading of the race is fine; only the exception type is judged (first feed: never a restart request)
+            if raised:
+                self.viol.append(f"keep-alive answered in the same loop iteration as its timeout: feed raised {type(exc).__name__}: {exc}")
+            return
         # reference
         self.ordinal += 1
         failed = outcome != "ok"
@@ -208,6 +228,13 @@ def version_job(args):
             w.close()
             out["stateless"] += 1
             out["sigs"].add((v, tuple(trace)))
+        # the answer lands in the same loop iteration as the command timeout (first feed of a fresh application)
+        w = World({"version": v})
+        w.feed("deadline")
+        for msg in w.viol:
+            viol.append((vkey(msg), f"v{v}: {msg}", {"world": "c19", "version": v, "period": PERIOD_SMALL, "outcomes": ["deadline"]}))
+        w.close()
+        out["stateless"] += 1
         # the protocol handler is replaced (reset + re-negotiation on the same EZSP object) before feed k of every short sequence
         for seq in itertools.product(range(len(outs)), repeat=3):
             for k in range(3):
